@@ -290,7 +290,16 @@ class Statement(object):
             return
 
         if self.operand.value.is_address_expression():
-            self.code_pkg.additional = self.operand.value.calculate_address_offset(statements)
+            try:
+                result = self.operand.value.calculate_address_offset(statements)
+            except (ValueError, ValueTypeError) as error:
+                raise TranslationError(str(error), self)
+            if self.operand.is_immediate() and not self.instruction.is_16_bit:
+                if result.int > (0x80 if result.is_negative() else 0xFF):
+                    raise TranslationError("[{}] does not fit in an 8-bit immediate value".format(
+                        self.operand.operand_string), self)
+                result = NumericValue(-result.int if result.is_negative() else result.int, size_hint=2)
+            self.code_pkg.additional = result
 
         if self.operand.value.is_address():
             address = statements[self.operand.value.int].code_pkg.address
@@ -305,7 +314,10 @@ class Statement(object):
 
         if self.code_pkg.additional_needs_resolution:
             if self.operand.is_indexed() and self.operand.left and self.operand.left.is_address_expression():
-                relative_address = self.operand.left.calculate_address_offset(statements).int
+                try:
+                    relative_address = self.operand.left.calculate_address_offset(statements).int
+                except (ValueError, ValueTypeError) as error:
+                    raise TranslationError(str(error), self)
             else:
                 relative_address = statements[self.code_pkg.additional.int].code_pkg.address.int
 
